@@ -6,6 +6,10 @@
 package c09
 
 import (
+	"os"
+	"regexp"
+	"bytes"
+	"sync"
 	"encoding/json"
 	"fmt"
 	"sort"
@@ -112,6 +116,9 @@ type obs struct {
 	Events   int          `json:"events"`
 	Linger1  int          `json:"linger_right_after_close"`
 	Dump     string       `json:"dump,omitempty"`
+	Slow     string       `json:"slow_passive_session_transcript,omitempty"`
+	// HandlersLeft: connection handlers still running 2 s after the last client of all (silent ones included) left
+	HandlersLeft map[string]int `json:"handlers_left_at_the_end,omitempty"`
 }
 
 const grace = 40 * time.Second
@@ -199,7 +206,50 @@ func (prop) Child(b core.Batch, o *core.Obs) {
 			parkedAt = time.Now()
 		}
 	}
+	var slow sync.WaitGroup
+	if s.Type == "ftp" {
+		// a session that waits out the passive accept window: PASV, nobody connects, STOR (answered 450 after
+		// about 30 s), a second STOR on the expired socket, then the client leaves. It runs beside the first
+		// history; the grace period starts when it is over.
+		slow.Add(1)
+		go func() {
+			defer slow.Done()
+			cc := w.Srv.L.DialTCP(lab.TCPAddr("10.0.0.1", s.Port), lab.TCPAddr("203.0.113.79", 7999))
+			cl := lab.NewClient(cc)
+			defer cl.Close()
+			say := func(cmds ...string) bool {
+				for _, c := range cmds {
+					if cl.Send([]byte(c+"\r\n"), time.Second) != nil {
+						return false
+					}
+					cl.WaitIdle(100 * time.Millisecond)
+				}
+				return true
+			}
+			if !say("USER anonymous", "PASS anonymous", "PASV", "STOR a.txt") {
+				return
+			}
+			if m := regexp.MustCompile(`open (/[^:]*)/a\.txt: no such file or directory`).FindSubmatch(cl.Received()); m != nil {
+				// an earlier (warm-up) scenario has removed the root directory itself: put it back, the upload
+				// must get as far as waiting for its data connection
+				os.MkdirAll(string(m[1]), 0755)
+				if !say("PASV", "STOR a.txt") {
+					return
+				}
+			}
+			mark := len(cl.Received())
+			cl.WaitFor(func(b []byte) bool { return len(b) > mark && bytes.Contains(b[mark-2:], []byte("\r\n4")) }, 36*time.Second)
+			cl.Send([]byte("STOR b.txt\r\n"), time.Second)
+			cl.WaitIdle(300 * time.Millisecond)
+			t := string(cl.Received())
+			if len(t) > 400 {
+				t = t[len(t)-400:]
+			}
+			ob.Slow = t
+		}()
+	}
 	history(0, true)
+	slow.Wait()
 	time.Sleep(grace)
 	ob.C1 = takeCensus(true)
 	history(p.N, false)
@@ -224,7 +274,19 @@ func (prop) Child(b core.Batch, o *core.Obs) {
 		ob.Silent = append(ob.Silent, silentConn{Stage: pk.stage, Closed: pk.cc.Srv.Closed()})
 		pk.cc.Close()
 	}
-	if excess(ob.C0.Gor, ob.C2.Gor) != nil || ob.C2.CPUms > 1000 {
+	// every client is gone now, the silent ones included: no connection handler may be left (a single one that
+	// never returns does not grow from census to census, so the growth rule alone would not see it)
+	time.Sleep(2 * time.Second)
+	c3 := takeCensus(false)
+	for sig, n := range excess(ob.C0.Gor, c3.Gor) {
+		if strings.Contains(sig, "server.(*Honeytrap).handle") {
+			if ob.HandlersLeft == nil {
+				ob.HandlersLeft = map[string]int{}
+			}
+			ob.HandlersLeft[sig] = n
+		}
+	}
+	if excess(ob.C0.Gor, ob.C2.Gor) != nil || ob.C2.CPUms > 1000 || ob.HandlersLeft != nil {
 		d := lab.GoroutineDump()
 		if len(d) > 60000 {
 			d = d[:60000]
@@ -295,6 +357,14 @@ func (prop) Judge(b core.Batch, recs []core.Rec, exits []core.Exit) []core.Resul
 						What:    fmt.Sprintf("%d goroutines left after %d connections and %d after %d (40 s after the last client closed): %s", e1[sig], ob.N, e2[sig], 2*ob.N, sig),
 						Witness: map[string]interface{}{"signature": sig, "after_N": e1[sig], "after_2N": e2[sig], "dump_excerpt": grepDump(ob.Dump, strings.Split(sig, " < ")[0])}})
 				}
+			}
+			for sig, n := range ob.HandlersLeft {
+				if e1[sig] > 0 && e2[sig] > e1[sig] {
+					continue // reported by the growth rule already
+				}
+				out = append(out, core.Result{K: 0, Verdict: core.Violated, Sig: "C09|" + svc + "|handler-never-returned|" + shortSig(sig),
+					What:    fmt.Sprintf("%d connection handler(s) still running after every client had left (at least 40 s before, silent ones 2 s before): %s", n, sig),
+					Witness: map[string]interface{}{"signature": sig, "count": n, "slow_session": ob.Slow, "dump_excerpt": grepDump(ob.Dump, strings.Split(sig, " < ")[0])}})
 			}
 			f1, f2 := excess(ob.C0.FDs, ob.C1.FDs), excess(ob.C0.FDs, ob.C2.FDs)
 			for kind, n2 := range f2 {
